@@ -36,6 +36,7 @@ class C01(Prop):
             "insert_assigns_fresh_id_peewee", "ids_nodup_peewee", "get_after_insert_peewee", "bulk_insert_peewee",
             "separated", "api_preserves_separation", "mutation_preserves_separation", "reachable_separated",
             "store_owns_copy", "store_owns_copy_step", "client_holds_data",
+            "heap_insert_refines_value_model", "heap_insert_returns",
         )
     ]
     WORKERS = 10
